@@ -1,8 +1,10 @@
 package faultrig
 
 import (
+	"bytes"
 	"context"
 	"fmt"
+	"io"
 	"net"
 	"strings"
 	"sync"
@@ -12,6 +14,8 @@ import (
 	"github.com/prometheus/client_golang/prometheus"
 	"github.com/saucelabs/forwarder"
 	"github.com/saucelabs/forwarder/conntrack"
+
+	"verifharness/rng"
 )
 
 // CtObs is one concurrent-close experiment on the real conntrack / Listener / Dialer code.
@@ -302,4 +306,130 @@ type closedConn struct{ countConn }
 func gatherReg(reg *prometheus.Registry) Metrics {
 	r := &Rig{Reg: reg}
 	return r.Gather()
+}
+
+// ByteObs: the conntrack Observer against the bytes actually transferred on a loopback TCP pair.
+type ByteObs struct {
+	Ops      [][2]int `json:"ops"`       // per call through the wrapper: {0 Read | 1 Write | 2 ReadFrom, n returned}
+	Rx       uint64   `json:"rx"`        // Observer.Rx()
+	Tx       uint64   `json:"tx"`        // Observer.Tx()
+	PeerSent int      `json:"peer_sent"` // bytes the peer wrote
+	PeerGot  int      `json:"peer_got"`  // bytes the peer read
+}
+
+// Coq renders it as G12.Check.bobs.
+func (b ByteObs) Coq() string {
+	parts := make([]string, len(b.Ops))
+	for i, o := range b.Ops {
+		parts[i] = fmt.Sprintf("(%d, %d)", o[0], o[1])
+	}
+	ops := "(@nil (N * N))"
+	if len(parts) > 0 {
+		ops = "[" + strings.Join(parts, "; ") + "]"
+	}
+	return fmt.Sprintf("(mkbobs %s %d %d %d %d)", ops, b.Rx, b.Tx, b.PeerSent, b.PeerGot)
+}
+
+type chunkReader struct {
+	left int
+	step int
+}
+
+func (r *chunkReader) Read(p []byte) (int, error) {
+	if r.left == 0 {
+		return 0, io.EOF
+	}
+	n := r.step
+	if n > r.left {
+		n = r.left
+	}
+	if n > len(p) {
+		n = len(p)
+	}
+	for i := 0; i < n; i++ {
+		p[i] = 'r'
+	}
+	r.left -= n
+	return n, nil
+}
+
+// RunByteCounters drives Read / Write / ReadFrom of tracked connections with seeded sizes.
+func RunByteCounters(tier string, seed uint64) []ByteObs {
+	n := 12
+	if tier == "thorough" {
+		n = 120
+	}
+	r := rng.New(seed ^ 0xb17e5)
+	var out []ByteObs
+	for i := 0; i < n; i++ {
+		l, err := net.Listen("tcp", "127.0.0.1:0")
+		if err != nil {
+			continue
+		}
+		var bo ByteObs
+		toSend := 1 + r.Intn(200000)
+		peerDone := make(chan struct{})
+		go func() {
+			defer close(peerDone)
+			c, err := l.Accept()
+			if err != nil {
+				return
+			}
+			defer c.Close()
+			// the peer sends toSend bytes in odd pieces, half-closes, then reads everything
+			buf := bytes.Repeat([]byte("p"), 7001)
+			left := toSend
+			for left > 0 {
+				k := len(buf)
+				if k > left {
+					k = left
+				}
+				m, err := c.Write(buf[:k])
+				bo.PeerSent += m
+				left -= m
+				if err != nil {
+					break
+				}
+			}
+			c.(*net.TCPConn).CloseWrite()
+			got, _ := io.Copy(io.Discard, c)
+			bo.PeerGot = int(got)
+		}()
+		raw, err := net.Dial("tcp", l.Addr().String())
+		if err != nil {
+			l.Close()
+			continue
+		}
+		wc, ob := conntrack.Builder{TrackTraffic: true, OnClose: func() {}}.BuildWithObserver(raw)
+		// writes of seeded sizes, one ReadFrom, reads until EOF with a seeded buffer size
+		for k := 1 + r.Intn(6); k > 0; k-- {
+			m, _ := wc.Write(bytes.Repeat([]byte("w"), 1+r.Intn(50000)))
+			bo.Ops = append(bo.Ops, [2]int{1, m})
+		}
+		if rf, ok := wc.(io.ReaderFrom); ok {
+			m, _ := rf.ReadFrom(&chunkReader{left: 1 + r.Intn(100000), step: 1 + r.Intn(9000)})
+			bo.Ops = append(bo.Ops, [2]int{2, int(m)})
+		}
+		if cw, ok := wc.(interface{ CloseWrite() error }); ok {
+			cw.CloseWrite()
+		} else {
+			raw.(*net.TCPConn).CloseWrite()
+		}
+		rb := make([]byte, 1+r.Intn(20000))
+		for {
+			m, err := wc.Read(rb)
+			bo.Ops = append(bo.Ops, [2]int{0, m})
+			if err != nil {
+				break
+			}
+		}
+		<-peerDone
+		wc.Close()
+		l.Close()
+		if ob != nil {
+			bo.Rx, bo.Tx = ob.Rx(), ob.Tx()
+		}
+		out = append(out, bo)
+	}
+	return out
 }
